@@ -401,8 +401,8 @@ def emit_storefor(u, P, with_builditem=False):
            ensures=[('ok_iff', 'r is Ok <==> (self.view_idmap() is Some && resolves_to::<T>(self.view_store(), self.view_idmap().unwrap(), self.view_temp_ids(), id@) is Some)'),
                     ('handle', 'r is Ok ==> r->Ok_0.idx() == resolves_to::<T>(self.view_store(), self.view_idmap().unwrap(), self.view_temp_ids(), id@).unwrap()')],
            prologue='proof { T::HandleType::hmax_bound(); }'),
-        Fn('next_handle', props=P, ret='r', requires=[('fits', 'self.view_store().len() <= T::HandleType::hmax()')],
-           ensures=[('next', 'r.idx() == self.view_store().len()')]),
+        Fn('next_handle', props=P, ret='r',
+           ensures=[('next', 'self.view_store().len() <= T::HandleType::hmax() ==> r.idx() == self.view_store().len()'), ('max', 'r.idx() <= T::HandleType::hmax()')]),
     ] + req_variants('has', ensures_fn=has_ens) + req_variants('get', ensures_fn=get_ens) + build_variant \
       + req_variants('get_mut', ensures_fn=get_mut_ens) + req_variants('remove', ensures_fn=remove_ens, requires=[('wf', 'idmap_wf(old(self).view_store(), old(self).view_idmap())')],
                                                                         after=[('*item = None;', 'proof { assert forall|h: T::HandleType| h.idx() == handle.idx() && Self::cascade_free() implies #[trigger] Self::preremove_post(old(self).view_store(), old(self).view_rest(), old(self).view_store(), self.view_rest(), h, true) by { T::HandleType::idx_injective(h, handle); } }', None, 'callback')],
@@ -420,7 +420,7 @@ def emit_storefor(u, P, with_builditem=False):
                             ('R-request', r'self\.get_mut\(id\)', 'self.get_mut__str(id)'),
                             ('R-closure-inline', r'self\.idmap_mut\(\)\.map\(\|idmap\| \{(.*?)\}\);', r'if let Some(idmap) = self.idmap_mut() {\1; }'),
                             ('R-asserteq', r'assert_eq!\(handle, T::HandleType::new\(self\.store\(\)\.len\(\) - 1\), "[^"]*"\);', 'vx_assert_eq_handle(handle, T::HandleType::new(self.store().len() - 1));')],
-                  prologue='let ghost vx_item0 = item; proof { T::same_content_refl(item); }',
+                  prologue='let ghost vx_item0 = item; proof { T::same_content_refl(item); if item.spec_handle() is Some { T::HandleType::idx_bound(item.spec_handle().unwrap()); } }',
                   before=[('item = item.with_handle(self.next_handle());', 'let ghost vx_a = item;'),
                           ('item = item.generate_id(self.idmap_mut());', 'let ghost vx_b = item;'),
                           ('self.preinsert(&mut item)?;', 'let ghost vx_c = item;')],
@@ -429,11 +429,12 @@ def emit_storefor(u, P, with_builditem=False):
                          ('item = item.generate_id(self.idmap_mut());', 'proof { T::same_content_trans(vx_item0, vx_b, item); }', None, 'content'),
                          ('self.preinsert(&mut item)?;', 'proof { T::same_content_trans(vx_item0, vx_c, item); }', None, 'content')],
                   requires=[('wf', f'idmap_wf({OLD}, {OLDM})'),
-                            ('fits', f'{OLD}.len() < T::HandleType::hmax()'),
                             ('unbound_or_next', f'item.spec_handle() is None || item.spec_handle().unwrap().idx() == {OLD}.len()'),
                             ('id_not_temp_form', 'item.spec_id() is Some ==> !is_temp_form::<T>(old(self).view_temp_ids(), item.spec_id().unwrap())')],
                   ensures=[
                       ('duplicate_rejected', f'{DUP} && !old(self).view_config().merge ==> (r is Err || (r is Ok && r->Ok_0.idx() == resolves_to::<T>({OLD}, {OLDM}.unwrap(), old(self).view_temp_ids(), item.spec_id().unwrap()).unwrap())) && {UNCH}'),
+                      # a store whose handle type cannot number one more item refuses it (the handle would wrap around and denote an existing item)
+                      ('full_refused', f'item.spec_handle() is None && {OLD}.len() > T::HandleType::hmax() ==> r is Err && {UNCH}'),
                       ('atomic', f'r is Err && !old(self).view_config().merge && (forall|it: T| #![trigger Self::preinsert_ok(old(self).view_rest(), it)] #![trigger Self::inserted_ok(old(self).view_rest(), it)] Self::preinsert_ok(old(self).view_rest(), it) && Self::inserted_ok(old(self).view_rest(), it)) ==> {UNCH}'),
                       ('appends', f'r is Ok && !{DUP} ==> r->Ok_0.idx() == {OLD}.len() && final(self).view_store().len() == {OLD}.len() + 1 && final(self).view_store().take({OLD}.len() as int) =~= {OLD} && final(self).view_store().last() is Some && final(self).view_store().last().unwrap().spec_handle() == Some(r->Ok_0)'),
                       ('keeps_id', f'r is Ok && !{DUP} && !{GEN} ==> final(self).view_store().last().unwrap().spec_id() == item.spec_id()'),
